@@ -43,6 +43,13 @@ DecFrom(s, i, acc) ==
 Dec(s) == DecFrom(s, 1, <<>>)
 
 RoundTrip(bs) == Dec(Enc(bs)) = OK(bs)
+\* Second-level judge (false-alarm audit).  Enc is the NORMAL form: RFC 3986 makes upper-case hex digits (2.1) and leaving
+\* unreserved characters unescaped (2.3) recommendations ("should"), and calls the variants equivalent (6.2.2).  An output
+\* is an acceptable encoding of bs when it decodes to bs and contains nothing but unreserved characters and escapes.
+\* Differences from Enc that EncAcceptable admits are reported as specification drift, everything else as a violation.
+EncAcceptable(bs, out) ==
+  /\ Dec(out) = OK(bs)
+  /\ \A i \in 1..Len(out) : out[i] \in Unreserved \/ out[i] = PCT \/ (i > 1 /\ out[i - 1] = PCT) \/ (i > 2 /\ out[i - 2] = PCT)
 \* the encoder's output only ever contains unreserved characters and well-formed triplets
 EncShape(bs) == LET e == Enc(bs) IN
   \A i \in 1..Len(e) : e[i] \in Unreserved \/ e[i] = PCT
